@@ -179,6 +179,7 @@ def run(ctx):
     cfgs = cfgs_for(ctx)
     common.model_tie(ctx, docs, 'core', 'doc', limit=(1200 if ctx.quick() else 12000))
     common.model_tie(ctx, docs[::3], 'core-hardwrap', 'doc', limit=(400 if ctx.quick() else 4000))
+    common.plugin_model_tie(ctx, 250 if ctx.quick() else 3000)
     n = oracle(ctx, docs, cfgs)
     n += custom_renderer_stream(ctx, docs[: (600 if q else 6000)])
     n += shared_parser_part(ctx)
